@@ -82,6 +82,9 @@ enum Mutator {
     TwoSwappers,
     /// nobody mutates: only readers run (two-list operations in both orders)
     Nobody,
+    /// the buffer has one to three free slots; 60 pushes, so that it moves (several times) however
+    /// much room there was, while readers clone elements slowly
+    PushBurst,
 }
 
 #[derive(Clone, Copy, Debug, PartialEq)]
@@ -108,7 +111,7 @@ enum Reader {
     GetRustFirst,
 }
 
-const MUTATORS: [Mutator; 9] = [Mutator::Nobody, Mutator::PushRust, Mutator::PushScript, Mutator::PushTwice, Mutator::SwapEnds, Mutator::SwapScript, Mutator::CloneDropHandle, Mutator::TwoPushers, Mutator::TwoSwappers];
+const MUTATORS: [Mutator; 10] = [Mutator::PushBurst, Mutator::Nobody, Mutator::PushRust, Mutator::PushScript, Mutator::PushTwice, Mutator::SwapEnds, Mutator::SwapScript, Mutator::CloneDropHandle, Mutator::TwoPushers, Mutator::TwoSwappers];
 const READERS: [Reader; 20] = [
     Reader::EqRustAB,
     Reader::EqRustBA,
@@ -225,7 +228,12 @@ pub fn run(fns: &Arc<StressFns>, ctl: &[u8], render: bool) -> Outcome {
     let mut fail: Option<(String, String)> = None;
     let t0 = std::time::Instant::now();
     for round in 0..cfg.rounds {
-        let a = if cfg.mutator == Mutator::TwoPushers { mk_list_free(cfg.n, 1) } else { mk_list(cfg.n) };
+        let a = match cfg.mutator {
+            Mutator::TwoPushers => mk_list_free(cfg.n, 1),
+            Mutator::PushBurst => mk_list_free(cfg.n, 1 + round % 3),
+            _ => mk_list(cfg.n),
+        };
+        host::set_clone_spin(if cfg.mutator == Mutator::PushBurst { [200u32, 2000, 20000][round % 3] } else { 0 });
         let b = mk_list(cfg.n);
         let len0 = a.len();
         let blen0 = b.len();
@@ -237,6 +245,7 @@ pub fn run(fns: &Arc<StressFns>, ctl: &[u8], render: bool) -> Outcome {
             _ => 1,
         };
         let parties = n_mut + cfg.readers.len();
+        let max_pushes: usize = if cfg.mutator == Mutator::PushBurst { 60 } else { 2 };
         let mut spans: Vec<(u128, u128)> = Vec::new();
         let mut errs: Vec<String> = Vec::new();
         std::thread::scope(|s| {
@@ -257,6 +266,13 @@ pub fn run(fns: &Arc<StressFns>, ctl: &[u8], render: bool) -> Outcome {
                         Mutator::PushTwice => {
                             a.push(x1);
                             a.push(x2);
+                        }
+                        Mutator::PushBurst => {
+                            drop(x2);
+                            a.push(x1);
+                            for _ in 1..60 {
+                                a.push(Val(Tr::new(5000)));
+                            }
                         }
                         Mutator::SwapEnds => a.swap(0, len0 - 1),
                         Mutator::SwapScript => fns.s_swap.call(a.clone(), 0, (len0 - 1) as u64),
@@ -328,11 +344,11 @@ pub fn run(fns: &Arc<StressFns>, ctl: &[u8], render: bool) -> Outcome {
                         },
                         Reader::LenRust => {
                             let n = a.len();
-                            if n >= len0 && n <= len0 + 2 { Ok(()) } else { Err(format!("len() = {n} for a list of {len0} elements with at most 2 pushes")) }
+                            if n >= len0 && n <= len0 + max_pushes { Ok(()) } else { Err(format!("len() = {n} for a list of {len0} elements with at most {max_pushes} pushes")) }
                         }
                         Reader::LenScript => {
                             let n = fns.s_len.call(a.clone()) as usize;
-                            if n >= len0 && n <= len0 + 2 { Ok(()) } else { Err(format!("script len() = {n} for a list of {len0} elements with at most 2 pushes")) }
+                            if n >= len0 && n <= len0 + max_pushes { Ok(()) } else { Err(format!("script len() = {n} for a list of {len0} elements with at most {max_pushes} pushes")) }
                         }
                         Reader::ContainsMissingRust => {
                             if a.contains(&missing) { Err("contains(value never inserted) returned true".into()) } else { Ok(()) }
@@ -343,7 +359,7 @@ pub fn run(fns: &Arc<StressFns>, ctl: &[u8], render: bool) -> Outcome {
                             for x in &v {
                                 x.0.touch("element of to_vec()");
                             }
-                            if v.len() >= len0 && v.len() <= len0 + 2 { Ok(()) } else { Err(format!("to_vec() has {} elements for a list of {len0} elements with at most 2 pushes", v.len())) }
+                            if v.len() >= len0 && v.len() <= len0 + max_pushes { Ok(()) } else { Err(format!("to_vec() has {} elements for a list of {len0} elements with at most {max_pushes} pushes", v.len())) }
                         }
                         Reader::IsEmptyRust => {
                             if a.is_empty() && len0 > 0 { Err("is_empty() on a non-empty list".into()) } else { Ok(()) }
@@ -355,11 +371,11 @@ pub fn run(fns: &Arc<StressFns>, ctl: &[u8], render: bool) -> Outcome {
                             for x in r.to_vec().iter() {
                                 x.0.touch("element of a concatenation");
                             }
-                            if n >= len0 + blen0 && n <= len0 + blen0 + 2 { Ok(()) } else { Err(format!("the concatenation has {n} elements for lists of {len0} (+ at most 2 pushes) and {blen0} elements")) }
+                            if n >= len0 + blen0 && n <= len0 + blen0 + max_pushes { Ok(()) } else { Err(format!("the concatenation has {n} elements for lists of {len0} (+ at most {max_pushes} pushes) and {blen0} elements")) }
                         }
                         Reader::ConcatScript => {
                             let n = fns.s_concat_len.call(a.clone(), b.clone()) as usize;
-                            if n >= len0 + blen0 && n <= len0 + blen0 + 2 { Ok(()) } else { Err(format!("script a + b has {n} elements for lists of {len0} (+ at most 2 pushes) and {blen0} elements")) }
+                            if n >= len0 + blen0 && n <= len0 + blen0 + max_pushes { Ok(()) } else { Err(format!("script a + b has {n} elements for lists of {len0} (+ at most {max_pushes} pushes) and {blen0} elements")) }
                         }
                         Reader::GetRustLast | Reader::GetRustFirst => {
                             let i = if r == Reader::GetRustLast { len0 - 1 } else { 0 };
@@ -398,6 +414,7 @@ pub fn run(fns: &Arc<StressFns>, ctl: &[u8], render: bool) -> Outcome {
         let pushes = match cfg.mutator {
             Mutator::PushRust | Mutator::PushScript => 1,
             Mutator::PushTwice | Mutator::TwoPushers => 2,
+            Mutator::PushBurst => 60,
             _ => 0,
         };
         if errs.is_empty() && a.capacity() < a.len() {
@@ -411,6 +428,7 @@ pub fn run(fns: &Arc<StressFns>, ctl: &[u8], render: bool) -> Outcome {
                 Mutator::PushRust | Mutator::PushScript => want.push(5000),
                 Mutator::PushTwice => want.extend([5000, 5001]),
                 Mutator::TwoPushers => want.extend([5000, 5000]),
+                Mutator::PushBurst => want.extend(std::iter::repeat(5000).take(60)),
                 _ => {}
             }
             tags.sort();
@@ -438,6 +456,7 @@ pub fn run(fns: &Arc<StressFns>, ctl: &[u8], render: bool) -> Outcome {
         }
     }
     host::set_eq_spin(0);
+    host::set_clone_spin(0);
     if let Some((sig, msg)) = fail {
         host::reset(vec![]);
         let mut f = Outcome::fail(sig, msg);
